@@ -2,9 +2,11 @@
 (src/ndn/app_support/light_versec/{compiler,checker,parser,grammar,binary}.py, docs/src/lvs/lvs.rst)."""
 import lvs_common as L
 
+from props import lvs_extract
+
 PROP = 'C11'
 TITLE = 'A compiled trust schema matches exactly the names its source text describes'
-LEAN_TARGETS = ['NdnProofs.Props.C11']
+LEAN_TARGETS = ['NdnProofs.Props.C11', 'NdnProofs.Props.C11Tables']
 THEOREMS = [
     'Ndn.C11.matchIter_eq_matchTree', 'Ndn.C11.matchIter_no_exception', 'Ndn.C11.matchTree_sound', 'Ndn.C11.matchIter_sound',
     'Ndn.C11.matchTree_iff_Sem', 'Ndn.C11.compile_correct_partial', 'Ndn.C11.compiled_match_iff', 'Ndn.C11.compiled_vdet',
@@ -14,6 +16,9 @@ THEOREMS = [
     'Ndn.C11.chain_accepts_iff_src', 'Ndn.C11.srcMatch_computes',
     'Ndn.C11.keyInj_of_wf', 'Ndn.C11.compile_correct_wf', 'Ndn.C11.compile_correct_named_wf', 'Ndn.C11.checker_reports_iff_chain_wf',
     'Ndn.C11.merge_key_test_holds', 'Ndn.C11.keyInj_counterexample',
+    # generated tables (lean/NdnGen) pinned to the model
+    'Ndn.C11.pass_order_table', 'Ndn.C11.merge_key_source_table', 'Ndn.C11.merge_key_model_table', 'Ndn.C11.fn_name_table',
+    'Ndn.C11.generate_node_table', 'Ndn.C11.matcher_tests_table', 'Ndn.C11.match_frontend_table',
 ]
 PARTIAL = {
     'Ndn.C11.compile_correct_partial':
@@ -48,6 +53,7 @@ TRUSTED = [
     'C11: save/load is the TLV codec (C08); the harness compares the model object and the match results before and after',
     'C11: lark (text -> AST) and the pretty-printer of the schema generator; the Lean compiler model and the Lean source semantics '
     'receive the AST the generator pretty-prints (literal components as the bytes Component.from_str gives)',
+    "C11: lean/NdnGen/C11.lean is regenerated on every run by harness/props/lvs_extract.py (live constants of the imported modules; control-flow facts as normalised source text, ast.unparse) and pinned to the model by the *_table theorems (NdnProofs/Props/C11Tables.lean, closed by evaluation): the order of the compiler passes and the model header, every piece and the control-flow skeleton of pattern_movement's merge key (the model's argStr/optStr/termStr/pmoveB are proved to print exactly the generated separators, and FnNameOK is stated with them), the grammar's identifier terminals, the tests of _match / _check_cons, the digest type Checker.match strips (proved to be what stripDigest strips), the #_ prefix. Trusted: the extractor; a pinned TEXT (a test, a call) ties the model to the source only as far as the doc comment of the theorem reads it correctly - the behaviour itself is still tied by the correspondence run",
 ]
 RULE = ('generated schemas (rule references incl. the same rule twice in one name, nested references, redefinitions, temporary rules '
         'and patterns, constraints on temporaries / inherited named patterns / patterns of other rules, multi-option and multi-set '
@@ -63,6 +69,11 @@ RULE = ('generated schemas (rule references incl. the same rule twice in one nam
         'the real Checker reports and vs the set the Python oracle gives; '
         'oracle: the set of (rule, bindings) equals the source-level semantics. non-trivial = some name matches and some does not; '
         'distinct = distinct (schema, names)')
+
+
+def extract(repo):
+    """lean/NdnGen/C11.lean: tables read from the Light VerSec sources (harness/props/lvs_extract.py)"""
+    return lvs_extract.generate_c11(repo)
 
 
 def cases(rng, tier):
@@ -327,7 +338,8 @@ LEVEL_TEXT = ('Lean 4 theorems from the source text to the answers of Checker.ma
               'the compiled tree\'s path semantics, the iterative search = the recursive one. Tied to the code on every run by '
               'differential execution (schema AST -> Lean compiler vs real compile_lvs: node pools compared; Lean loader + matcher on the '
               'Lean-compiled pool vs real Checker; the Lean source semantics evaluated on the AST vs the real Checker.match and vs the Python '
-              'oracle) and by a source-level oracle transcribed independently from the document.')
+              'oracle) and by a source-level oracle transcribed independently from the document.'
+              " The compiler's pass order, the pieces of the merge key (separators and v=/t= prefixes, proved to be what the model prints), the grammar terminals, the tests of Checker._match/_check_cons and the digest type stripped by Checker.match are regenerated from the source on every run (lean/NdnGen/C11.lean) and pinned by theorems closed by evaluation (NdnProofs/Props/C11Tables.lean).")
 LEVEL_NOTE = ('compile_correct_wf is proved for the model for every schema the parser can produce (the merge-key hypothesis KeyInj is a '
               'theorem, keyInj_of_wf). Proof is about the model; model=code is sampled.')
 TECHNIQUE = 'Lean 4 proof (source-level semantics as an inductive relation; refinement through the compiler passes: numbering, replication with an alpha-renaming invariant for fresh temporaries, node merging = union of chains by induction on the generated tree; simulation of the iterative search; soundness/completeness w.r.t. a path semantics) + model/implementation correspondence check (compiler, loader, matcher) + source-level oracle'
